@@ -11,6 +11,7 @@ import (
 
 	"github.com/mdzio/go-logging"
 	"verif/harness/core"
+	_ "verif/harness/codec"
 	"verif/harness/ring"
 )
 
